@@ -2,6 +2,7 @@
 package natives
 
 import (
+	"unicode/utf16"
 	"fmt"
 	"math"
 
@@ -65,6 +66,22 @@ func Install(vm *goja.Runtime) {
 	vm.Set("__goString", func(call goja.FunctionCall) goja.Value {
 		// a Go string imported through ToValue (lazily scanned when longer than 16 bytes)
 		return vm.ToValue(call.Argument(0).String())
+	})
+	// Go-side views of a string (C06): equal content must export to the same Go string
+	vm.Set("__exportEq", func(call goja.FunctionCall) goja.Value {
+		a, b := call.Argument(0), call.Argument(1)
+		ea, oka := a.Export().(string)
+		eb, okb := b.Export().(string)
+		return vm.ToValue(oka && okb && ea == eb && a.String() == b.String())
+	})
+	vm.Set("__exportUnits", func(call goja.FunctionCall) goja.Value {
+		s, _ := call.Argument(0).Export().(string)
+		u := utf16.Encode([]rune(s))
+		out := make([]interface{}, len(u))
+		for i, x := range u {
+			out[i] = int64(x)
+		}
+		return vm.ToValue(out)
 	})
 	vm.Set("__exportLen", func(call goja.FunctionCall) goja.Value {
 		// length of the Go-side export of a Map ([][2]interface{}) or Set ([]interface{})
